@@ -49,6 +49,16 @@ type c18StrStruct struct {
 	N int
 }
 
+type c18SegStruct struct {
+	Segs [2]string
+	Port int
+}
+type c18Outer struct {
+	In c18StrStruct
+	F  bool
+}
+type c18Boxed struct{ V any }
+
 var c18Ints [64]int
 
 // c18Via returns a copy of v that travelled along construction path p.
@@ -232,6 +242,40 @@ var c18Types = map[string]c18Driver{
 	"strkey-struct-string-form-may-be-empty": c18Make(func(spec int64, p int) c18StrStruct {
 		return c18Via(c18StrStruct{S: c18Str(spec%3, p)}, p)
 	}, func(k c18StrStruct) string { return k.S }),
+	// strings reachable only through an array, a nested struct or an interface (seeded C18f: a type walk
+	// that decides once, at construction, whether the string form is needed)
+	"strkey-string-array": c18Make(func(spec int64, p int) [2]string {
+		return c18Via([2]string{c18Str(spec, p), c18Str(spec>>3, p+1)}, p)
+	}, func(k [2]string) string { return k[0] + "\x00" + k[1] }),
+	"strkey-named-string-array": c18Make(func(spec int64, p int) [2]c18MyStr {
+		return c18Via([2]c18MyStr{c18MyStr(c18Str(spec, p+2)), c18MyStr(c18Str(spec%5, p))}, p)
+	}, func(k [2]c18MyStr) string { return string(k[0]) + "\x00" + string(k[1]) }),
+	"strkey-struct-string-array": c18Make(func(spec int64, p int) c18SegStruct {
+		return c18Via(c18SegStruct{Segs: [2]string{c18Str(spec, p), c18Str(spec%7, p+3)}, Port: int(spec % 4)}, p)
+	}, func(k c18SegStruct) string { return k.Segs[0] + "\x00" + k.Segs[1] + "\x00" + strconv.Itoa(k.Port) }),
+	"strkey-nested-struct-string": c18Make(func(spec int64, p int) c18Outer {
+		var k c18Outer
+		k.In.S, k.In.N = c18Str(spec, p), int(spec%3)
+		k.F = spec&4 == 4
+		return c18Via(k, p)
+	}, func(k c18Outer) string { return k.In.S + "/" + strconv.Itoa(k.In.N) + "/" + strconv.FormatBool(k.F) }),
+	"strkey-struct-interface": c18Make(func(spec int64, p int) c18Boxed {
+		if spec&1 == 1 {
+			return c18Via(c18Boxed{V: spec}, p)
+		}
+		return c18Via(c18Boxed{V: c18Str(spec, p)}, p)
+	}, func(k c18Boxed) string { return fmt.Sprintf("%T:%v", k.V, k.V) }),
+	// a padded struct is addressable once the caller supplies a string form (without one: known finding C18-padded-struct)
+	"strkey-struct-padded": c18Make(func(spec int64, p int) c18Padded {
+		if p%2 == 1 {
+			var k c18Padded
+			k.C = uint16(spec >> 3)
+			k.B = spec
+			k.A = uint8(spec)
+			return c18Via(k, p)
+		}
+		return c18Via(c18Padded{A: uint8(spec), B: spec, C: uint16(spec >> 3)}, p)
+	}, func(k c18Padded) string { return fmt.Sprintf("%d/%d/%d", k.A, k.B, k.C) }),
 	"strkey-float": c18Make(func(spec int64, p int) float64 {
 		return c18Via(float64(spec)/4, p)
 	}, func(k float64) string { return strconv.FormatFloat(k, 'g', -1, 64) }),
@@ -297,7 +341,7 @@ func execC18(c c18Case, x *verifkit.Ctx) (fail *verifkit.Failure) {
 func TestVerifC18(t *testing.T) {
 	verifkit.Run(t, verifkit.Spec[c18Case]{
 		ID: "C18", Gen: genC18, Exec: execC18,
-		Rule: fmt.Sprintf("C18: rapid draws one of %d key types (all integer widths, bool, pointer, string, a named string type, arrays, structs with and without padding, nested; with a StringKey function: struct with a string field, the same struct with the field itself as string form - which can be empty -, float64, and a constant function that makes every hash collide), up to 12 distinct key specs including zero and extreme values, and up to 60 Set/Get/Delete operations, each building its key along one of 5 construction paths (literal/field-wise, reflect, channel, map, array slot; strings: fresh backing array, builder, substring); reference map[K]V; non-trivial = at least two keys stored and a key built along a non-literal path", len(c18Types)),
+		Rule: fmt.Sprintf("C18: rapid draws one of %d key types (all integer widths, bool, pointer, string, a named string type, arrays, structs with and without padding, nested; with a StringKey function: struct with a string field, the same struct with the field itself as string form - which can be empty -, arrays of strings and of a named string type, structs holding their strings in an array field, in a nested struct or in an interface field, a padded struct, float64, and a constant function that makes every hash collide), up to 12 distinct key specs including zero and extreme values, and up to 60 Set/Get/Delete operations, each building its key along one of 5 construction paths (literal/field-wise, reflect, channel, map, array slot; strings: fresh backing array, builder, substring); reference map[K]V; non-trivial = at least two keys stored and a key built along a non-literal path", len(c18Types)),
 		Assumptions: []string{
 			"the cache is large enough never to evict; keys are key-tagged so aliasing is distinguishable from staleness",
 			"quick tier: default toolchain (xxh3 over key memory); thorough tier additionally under go1.26.8 (maphash.Comparable)",
